@@ -130,6 +130,16 @@ CLAIMED = {
             "wrapped strategy's for n_jobs in {1,2,3,-1}; SingleAnnotatorWrapper's sample order is compared with the "
             "wrapped strategy's ranking.",
             "DESIGN.md 5 (C20)", TRUST),
+    "C06": ("TLA+ module Determinism (twin objects, private streams, process-global generator; memo of results per "
+            "(arguments, own history); deviation UsesGlobal) model-checked by TLC over all interleavings; TLC-enumerated "
+            "schedules (DetGen) executed on twin objects and validated by DetTrace",
+            "TLC checks that results keyed by (arguments, own history index) are reproducible across all interleavings "
+            "of up to 3 calls per twin with reseeding/advancing of the global generator, and that a dependency on the "
+            "global generator violates it; each TLC-enumerated schedule (calls on twin A / twin B, np.random.seed with "
+            "two seeds, np.random.random) is executed for every pool strategy configuration, stream strategy, budget "
+            "manager, classifier and regressor on inputs with ties (duplicated / identical points, cold start), and TLC "
+            "applies the memo clause to the digests of the complete results.",
+            "DESIGN.md 5 (C06)", TRUST),
 }
 
 NOT_YET = {}
